@@ -141,6 +141,17 @@ fn configs(prop: &str, tier: Tier) -> Vec<FsCfg> {
                 block: None,
                 prelude: vec![],
             },
+            // the same histories with every operation that exists in the tokio shim going through
+            // it (opens with their option combinations, path operations, positional I/O, syncs)
+            FsCfg {
+                name: "posix-tree-tokio-front".into(),
+                prop: Prop::C10,
+                letters: c10_letters(tier),
+                depth: tier.pick(4, 5),
+                sync_prob: 0.0,
+                block: None,
+                prelude: vec![],
+            },
             // directory renames are a known finding (F-FS-3) of the path-keyed tree; they are
             // kept out of the main alphabet (every history containing one diverges) and
             // exercised here so the finding stays visible
